@@ -135,7 +135,30 @@ func c12(p *P) {
 			p.before("C12.R4", nr, "WAL read", []Sink{{all[0].Instr, "WAL read"}}, "runner returned", okRet)
 		}
 	}
-	// ---------- R5 filter table
+	// ---------- R5 the first signature recorded for a slot is never forgotten while its instance is current:
+	// no production code deletes from (or clears) seenMessages; the only reset is the fresh map installed on a newer instance (checked below).
+	{
+		n := 0
+		for _, f := range p.c.ProdFuncs() {
+			for _, in := range instrsOf(f) {
+				call, ok := in.(*ssa.Call)
+				if !ok {
+					continue
+				}
+				bi, ok := call.Call.Value.(*ssa.Builtin)
+				if !ok || (bi.Name() != "delete" && bi.Name() != "clear") || len(call.Call.Args) == 0 {
+					continue
+				}
+				if strings.Contains(shortType(call.Call.Args[0].Type()), "equivocationKey]") || strings.HasSuffix(canon(call.Call.Args[0]), ".seenMessages") {
+					n++
+					r.Fail("C12.R5", "recorded slot signatures are never deleted", p.c.InstrPos(call), bi.Name()+" on the filter's slot map in "+funcName(f)+" — a forgotten first signature lets a conflicting message for that slot through (e.g. after a restart re-enters an earlier round)")
+				}
+			}
+		}
+		if n == 0 {
+			r.OK("C12.R5", "recorded slot signatures are never deleted", "", "no delete/clear on the filter's slot map in production code")
+		}
+	}
 	if pf := p.fn("C12.R5", filter); pf != nil {
 		inst, cur := `^\$1\.Vote\.Instance$`, `^\$0\.currentInstance$`
 		var seenUpd, otherUpd []Sink
